@@ -513,6 +513,7 @@ func checkC05(c *Ctx) {
 		return
 	}
 	c05ClosingBreak(c)
+	c05HandBuilt(c)
 	c.Set("rule", "case = one sibling list (7 list kinds) with Before/After/Start/End per element printed by the real restorer; non-trivial = some EmptyLine spacing or decoration present; distinct by kind + assignment")
 }
 
@@ -576,6 +577,64 @@ func c05ClosingBreak(c *Ctx) {
 			c.Fail(Finding{Sig: "spacing-print-fails", Input: key, What: msg, Replay: obj{"kind": "none"}})
 		} else if out != tc.want {
 			c.Fail(Finding{Sig: "closing-break-not-rendered", Input: key, What: fmt.Sprintf("%s: printed\n%s\nexpected\n%s", tc.name, out, tc.want), Replay: obj{"kind": "none"}})
+		}
+	}
+}
+
+// c05HandBuilt: the rule on a tree that no parser produced. `func f() { a := <lit>; g() }` is built from
+// struct literals with the minimal fields a user would write; the literal is a one-line string, a raw
+// string over two lines or one over three lines, and its Kind is the zero value, STRING, or another
+// token (go/printer never looks at Kind, the text alone decides how many lines the literal takes).
+// The space between the two statements is the larger of After and Before: exactly one empty line for
+// EmptyLine, otherwise the statements follow each other on consecutive lines.
+func c05HandBuilt(c *Ctx) {
+	lits := []string{"\"s\"", "`x\ny`", "`x\n\ny\n`"}
+	kinds := []token.Token{token.ILLEGAL, token.STRING, token.CHAR, token.INT}
+	for li, lit := range lits {
+		for _, kind := range kinds {
+			for a := 0; a <= 2; a++ {
+				for b := 0; b <= 2; b++ {
+					for _, where := range []string{"stmt", "spec"} {
+						key := fmt.Sprintf("hand-built|%s|lit%d|kind=%s|After=%d|Before=%d", where, li, kind, a, b)
+						c.Eval(key, true)
+						first := &dst.BasicLit{Value: lit, Kind: kind}
+						var f *dst.File
+						if where == "stmt" {
+							s1 := &dst.AssignStmt{Lhs: []dst.Expr{dst.NewIdent("a")}, Tok: token.DEFINE, Rhs: []dst.Expr{first}}
+							s2 := &dst.ExprStmt{X: &dst.CallExpr{Fun: dst.NewIdent("g")}}
+							s1.Decs.After, s2.Decs.Before = dst.SpaceType(a), dst.SpaceType(b)
+							f = &dst.File{Name: dst.NewIdent("p"), Decls: []dst.Decl{&dst.FuncDecl{Name: dst.NewIdent("f"), Type: &dst.FuncType{Params: &dst.FieldList{}},
+								Body: &dst.BlockStmt{List: []dst.Stmt{s1, s2}}}}}
+						} else {
+							s1 := &dst.ValueSpec{Names: []*dst.Ident{dst.NewIdent("a")}, Values: []dst.Expr{first}}
+							s2 := &dst.ValueSpec{Names: []*dst.Ident{dst.NewIdent("g")}, Values: []dst.Expr{&dst.BasicLit{Kind: token.INT, Value: "1"}}}
+							s1.Decs.After, s2.Decs.Before = dst.SpaceType(a), dst.SpaceType(b)
+							f = &dst.File{Name: dst.NewIdent("p"), Decls: []dst.Decl{&dst.GenDecl{Tok: token.VAR, Lparen: true, Rparen: true, Specs: []dst.Spec{s1, s2}}}}
+						}
+						out, msg := printFile(f)
+						if msg != "" {
+							c.Fail(Finding{Sig: "spacing-print-fails", Input: key, What: msg, Replay: obj{"kind": "none"}})
+							continue
+						}
+						// line breaks between the end of the literal and the second element
+						got := -1
+						if i := strings.Index(out, lit); i >= 0 {
+							rest := out[i+len(lit):]
+							if j := strings.Index(rest, "g"); j >= 0 {
+								got = strings.Count(rest[:j], "\n")
+							}
+						}
+						want := 1
+						if a == 2 || b == 2 {
+							want = 2
+						}
+						// None on both sides leaves the layout to go/printer (one line or two), but never an empty line
+						if got < 0 || (a+b > 0 && got != want) || (a+b == 0 && got > 1) {
+							c.Fail(Finding{Sig: "hand-built-spacing", Input: key, What: fmt.Sprintf("After=%d Before=%d: %d line break(s) between the end of the first element and the second, the rule says %d; printed\n%s", a, b, got, want, out), Replay: obj{"kind": "none"}})
+						}
+					}
+				}
+			}
 		}
 	}
 }
